@@ -117,6 +117,25 @@ class DynDiGraph(nx.DiGraph):
         self.edge_removal = edge_removal
         self.directed = True
 
+    def clear(self):
+        """Remove all nodes and interactions from the graph.
+
+        This also removes the name, all graph and node attributes, the snapshot
+        ids and the interaction stream.
+        """
+        nx.DiGraph.clear(self)
+        self.time_to_edge = defaultdict(int)
+        self.snapshots = {}
+
+    def clear_edges(self):
+        """Remove all interactions from the graph without altering nodes.
+
+        The snapshot ids and the interaction stream are emptied as well.
+        """
+        nx.DiGraph.clear_edges(self)
+        self.time_to_edge = defaultdict(int)
+        self.snapshots = {}
+
     def nodes_iter(self, t=None, data=False):
         """Return an iterator over the nodes with respect to a given temporal snapshot.
 
